@@ -94,13 +94,32 @@ def judge(src, opts_obj, res, dt, nkids):
     return out
 
 
+HARD_S = 90      # a call that has not returned by then is interrupted: "always returns a verdict" has failed, whatever the load
+
+
+class NoVerdict(BaseException):
+    """raised by the watchdog inside a compile_code call that does not return (BaseException: the compiler's own handlers let it through)"""
+
+
+def _watchdog(signum, frame):
+    raise NoVerdict()
+
+
 def call(C, src, opts):
+    import signal
     t0 = time.time()
+    old = signal.signal(signal.SIGALRM, _watchdog)
+    signal.setitimer(signal.ITIMER_REAL, HARD_S)
     try:
         res = C.compile_code(src, opts)
         exc = None
+    except NoVerdict:
+        res, exc = None, NoVerdict(f"no verdict after {HARD_S} s: the call was interrupted")
     except BaseException as e:   # noqa
         res, exc = None, e
+    finally:
+        signal.setitimer(signal.ITIMER_REAL, 0)
+        signal.signal(signal.SIGALRM, old)
     dt = time.time() - t0
     kids = children()
     for k in kids:
